@@ -1,18 +1,104 @@
 package harness
 
 import (
+	"strings"
+
 	sp "github.com/scipipe/scipipe"
+	"github.com/scipipe/scipipe/components"
 )
 
+// Bundled components: construction and wiring through their public API.
+
+type compAdapter struct {
+	out  func(string) *sp.OutPort
+	outp func(string) *sp.OutParamPort
+	in   func(string) *sp.InPort
+	inp  func(string) *sp.InParamPort
+}
+
+func (c *compAdapter) OutPort(n string) *sp.OutPort           { return c.out(n) }
+func (c *compAdapter) OutParamPort(n string) *sp.OutParamPort { return c.outp(n) }
+
+// TagValue is the tag a MapToTags node attaches: derived from the path only.
+func TagValue(path string) string {
+	b := baseName(path)
+	b = strings.ReplaceAll(b, ".", "_")
+	return "t_" + b
+}
+
 func buildComponent(wf *sp.Workflow, w *WF, n *Node, rt *Runtime) outPorter {
-	panic("component kind not built yet: " + n.Name)
+	switch n.Kind {
+	case KMapToTags:
+		key := n.TagKey
+		p := components.NewMapToTags(wf, n.Name, func(ip *sp.FileIP) map[string]string {
+			return map[string]string{key: TagValue(ip.Path())}
+		})
+		return &compAdapter{out: func(string) *sp.OutPort { return p.Out() }, in: func(string) *sp.InPort { return p.In() }}
+	case KStreamToSub:
+		p := components.NewStreamToSubStream(wf, n.Name)
+		return &compAdapter{out: func(string) *sp.OutPort { return p.OutSubStream() }, in: func(string) *sp.InPort { return p.In() }}
+	case KFileCombinator:
+		p := components.NewFileCombinator(wf, n.Name)
+		return &compAdapter{out: p.Out, in: p.In}
+	case KParamCombinator:
+		p := components.NewParamCombinator(wf, n.Name)
+		return &compAdapter{outp: p.OutParam, inp: p.InParam}
+	case KSelector:
+		acc := map[string]bool{}
+		for _, f := range n.Files {
+			acc[f] = true
+		}
+		p := components.NewIPSelectorSync(wf, n.Name, func(ip *sp.FileIP) bool { return acc[ip.Path()] })
+		return &compAdapter{out: p.Out, in: p.In}
+	case KSplitter:
+		p := components.NewFileSplitter(wf, n.Name, n.SplitLines)
+		return &compAdapter{out: func(string) *sp.OutPort { return p.OutSplitFile() }, in: func(string) *sp.InPort { return p.InFile() }}
+	case KConcat:
+		p := components.NewConcatenator(wf, n.Name, n.OutPath)
+		return &compAdapter{out: func(string) *sp.OutPort { return p.Out() }, in: func(string) *sp.InPort { return p.In() }}
+	case KGlobber:
+		p := components.NewFileGlobber(wf, n.Name, n.Globs...)
+		return &compAdapter{out: func(string) *sp.OutPort { return p.Out() }}
+	case KFileToParams:
+		p := components.NewFileToParamsReader(wf, n.Name, n.FilePath)
+		return &compAdapter{outp: func(string) *sp.OutParamPort { return p.OutLine() }}
+	case KCmdToParams:
+		p := components.NewCommandToParams(wf, n.Name, n.FilePath)
+		return &compAdapter{outp: func(string) *sp.OutParamPort { return p.OutParam() }}
+	}
+	panic("component kind not built: " + n.Name)
 }
 
 func connectComponent(wf *sp.Workflow, w *WF, i int, procs []outPorter, rt *Runtime) {
 	n := &w.Nodes[i]
 	switch n.Kind {
-	case KFileSrc, KParamSrc:
+	case KFileSrc, KParamSrc, KGlobber, KFileToParams, KCmdToParams:
 		return
 	}
-	panic("component kind not connected yet: " + n.Name)
+	ca := procs[i].(*compAdapter)
+	for _, in := range n.Ins {
+		for _, e := range in.From {
+			up := procs[e.Node].OutPort(e.Port)
+			if w.Nodes[e.Node].Rec || n.Rec {
+				r := newRecorder(wf, "rec_"+n.Name+"_"+in.Name+"_"+w.Nodes[e.Node].Name+"_"+e.Port, recKey(w.Nodes[e.Node].Name, e.Port, n.Name, in.Name), rt)
+				r.InPort("in").From(up)
+				ca.in(in.Name).From(r.OutPort("out"))
+			} else {
+				ca.in(in.Name).From(up)
+			}
+		}
+	}
+	for _, ps := range n.Params {
+		if ps.From != nil {
+			ca.inp(ps.Name).From(procs[ps.From.Node].OutParamPort(ps.From.Port))
+		} else {
+			ca.inp(ps.Name).FromStr(ps.Vals...)
+		}
+	}
+	// make sure declared out-ports exist (selector creates them on demand)
+	for _, o := range n.Outs {
+		if ca.out != nil {
+			ca.out(o.Name)
+		}
+	}
 }
